@@ -115,7 +115,8 @@ def check(repo: Repo, R) -> None:
         g = c02.has_guard(sa, lambda t: ast.unparse(t) == "key in _banned", noret)
         R.check(g is not None, rule, key_of(sa, "banned-guard"), sa.site, f"{cls}.__setattr__ rejects reserved names: {g is not None}", why="reserved names can be overwritten")
         deco = repo.func(sp["rel"], sp["deco"])
-        dg = any(isinstance(n, ast.If) and (ast.unparse(n.test) in ("key in _banned", "key in protected_names")) and au.raises(n.body, noret) for n in au.walk_no_nested(deco.node))
+        dg = any(isinstance(n, ast.If) and isinstance(n.test, ast.Compare) and len(n.test.ops) == 1 and isinstance(n.test.ops[0], ast.In) and ast.unparse(n.test.left) == "key"
+                 and (ast.unparse(n.test.comparators[0]) in ("_banned", "protected_names") or isinstance(n.test.comparators[0], (ast.List, ast.Tuple, ast.Set))) and au.raises(n.body, noret) for n in au.walk_no_nested(deco.node))
         via_setattr = bool(pat.find(f"setattr({sp['deco']}, key, val)", deco.node))
         R.check(dg and via_setattr, rule, key_of(deco), deco.site,
                 f"@{sp['deco']} rejects reserved field names ({dg}) and adds every HDL attribute through setattr, i.e. the same path as procedural definition ({via_setattr})",
